@@ -320,49 +320,43 @@ def _w(word):
     return ' '.join('R%s(a%d)' % (a, i) for a, i in word)
 
 
+def _tr2eul_paths(run, f, fi):
+    """paths of tr2eul classified: 'singular' (the branch that fixes phi = 0), 'general' (flip false), 'flip' (flip true)"""
+    paths = slot_paths(fi, f.node, 'eul')
+    cls = {}
+    for (conds, slots, ret) in paths:
+        if not {0, 1, 2} <= set(slots):
+            continue
+        flip = [pol for (t, pol) in conds if isinstance(t, ast.Name) and t.id == 'flip']
+        z = slots[0]
+        if isinstance(z, ast.Constant) and z.value == 0:
+            cls.setdefault('singular', slots)
+        elif flip and flip[-1]:
+            cls.setdefault('flip', slots)
+        else:
+            cls.setdefault('general', slots)
+    return cls
+
+
 def check_tr2eul(run, word, rule='R19'):
     f = run.prog.func('base/transforms3d:tr2eul')
     fi = FuncInfo.of(f)
     M = word_matrix(word)
-    top = None
-    for st in body_nodoc(f.node):
-        if isinstance(st, ast.If) and st.orelse and any(isinstance(x, ast.Subscript) and ast.unparse(x.value) == 'eul' for x in ast.walk(st)):
-            top = st
-    if top is None:
-        run.error('R19: tr2eul: singular/general if-else not found')
+    cls = _tr2eul_paths(run, f, fi)
+    if 'general' not in cls:
+        run.error('R19: tr2eul: no path assigning eul[0..2] outside the singular branch was found')
         return 0
     n = 0
     try:
         rd = Reader(M, 'eul')
-        got = set()
-
-        def stmts(block, flip):
-            nonlocal n
-            for st in block:
-                if isinstance(st, ast.If) and isinstance(st.test, ast.Name) and st.test.id == 'flip':
-                    # the flip arm selects the second solution (phi + pi, -theta, psi + pi); its form is the subject of the
-                    # `flip` table rule -- the composition is carried out for the principal solution
-                    stmts(st.orelse, False)
-                    continue
-                if isinstance(st, ast.Assign) and len(st.targets) == 1 and isinstance(st.targets[0], ast.Name):
-                    v = canon(fi, st.value, inline=False)
-                    rd.env[st.targets[0].id] = rd.ev(v)
-                    continue
-                for (slot, val, st2) in _assignments(fi, [st], 'eul'):
-                    sign, kind, parts = rd.classify(val)
-                    if flip:
-                        # the second solution: (phi + pi, -theta, psi + pi): both atan2 arguments negated
-                        if kind == 'atan2':
-                            parts = (-parts[0], -parts[1])
-                    ok, msg = _decide(kind, sign, parts, slot, 1, kpos={'s1'})
-                    n += 1
-                    got.add(slot)
-                    construct = 'eul[%d] = %s%s' % (slot, src(st2.value, 44), ' (flip)' if flip else '')
-                    (run.holds if ok else run.violation)(rule, f.key, construct, ('composes with the writer %s to the identity: ' % _w(word) if ok else
-                                                         'composed with the writer %s, ' % _w(word)) + msg, f=f, node=st2)
-        stmts(top.orelse, False)
-        if got != {0, 1, 2}:
-            run.error('R19: tr2eul: general branch assigns slots %s' % sorted(got))
+        for slot in (0, 1, 2):
+            val = cls['general'][slot]
+            sign, kind, parts = rd.classify(val)
+            ok, msg = _decide(kind, sign, parts, slot, 1, kpos={'s1'})
+            n += 1
+            construct = 'eul[%d] = %s' % (slot, src(val, 44))
+            (run.holds if ok else run.violation)(rule, f.key, construct, ('composes with the writer %s to the identity: ' % _w(word) if ok else
+                                                 'composed with the writer %s, ' % _w(word)) + msg, f=f)
     except Shape as ex:
         run.error('R19: tr2eul: unrecognised %s' % ex)
     return n
@@ -414,6 +408,8 @@ def check_r2q(run, rule='R19'):
                 envs = new
             elif isinstance(st, ast.If):
                 t = st.test
+                if not st.orelse and getattr(st, '_cont', None) is not None:
+                    continue        # early-exit guard: the arm leaves the function, the fall-through continues below
                 if isinstance(t, ast.Name) and all(isinstance(env.get(t.id), tuple) and env[t.id][0] == 'ge0' for env in envs):
                     a = run_block(st.body, [dict(env, __sigma=1, __test=env[t.id][1]) for env in envs])
                     b = run_block(st.orelse, [dict(env, __sigma=-1, __test=env[t.id][1]) for env in envs])
@@ -472,3 +468,68 @@ def check_r2q(run, rule='R19'):
     okr = any(matches('r_[qs, sqrt(1.0 - qs ** 2) / nm * kv]', e) is not None for e in rets)
     (run.holds if okr else run.error if False else run.violation)(rule, f.key, 'r2q: assembly', '[qs, sqrt(1 - qs^2) * kv / |kv|]' if okr else
                                                                   'the result is not assembled as [qs, sqrt(1 - qs^2) * kv / nm]', f=f)
+
+
+# =========================================================================== generic path evaluation of slot assignments
+class _SubstNames(ast.NodeTransformer):
+    def __init__(self, env):
+        self.env = env
+
+    def visit_Name(self, n):
+        if isinstance(n.ctx, ast.Load) and n.id in self.env:
+            import copy
+            return copy.deepcopy(self.env[n.id])
+        return n
+
+
+def slot_paths(fi, fnode, arr, start_after=None):
+    """Enumerate the paths of a loop-free function body; on each path collect the values assigned to arr[k] (k constant) with all
+    scalar locals substituted by their definitions along that path.  -> [(conds [(test, polarity)], {k: value AST}, return AST or None)]"""
+    import copy
+    out = []
+    # names that are indexed (matrices / the angle array itself) stay atomic; only scalar locals (sp, cp, k ...) are substituted
+    keep = {arr} | {x.value.id for x in ast.walk(fnode) if isinstance(x, ast.Subscript) and isinstance(x.value, ast.Name)}
+
+    def sub(e, env):
+        return _SubstNames({k: v for k, v in env.items() if k not in keep}).visit(copy.deepcopy(canon(fi, e, inline=False)))
+
+    def walk(stmts, env, slots, conds, depth=0):
+        for i, st in enumerate(stmts):
+            if isinstance(st, ast.Assign) and len(st.targets) == 1:
+                t = st.targets[0]
+                if isinstance(t, ast.Name):
+                    env = dict(env)
+                    env[t.id] = sub(st.value, env)
+                    continue
+                if isinstance(t, ast.Subscript) and isinstance(t.value, ast.Name) and t.value.id == arr and isinstance(t.slice, ast.Constant):
+                    slots = dict(slots)
+                    slots[t.slice.value] = sub(st.value, env)
+                    continue
+                if isinstance(t, (ast.Tuple, ast.List)):
+                    env = dict(env)
+                    for x in ast.walk(t):
+                        if isinstance(x, ast.Name):
+                            env.pop(x.id, None)
+                    continue
+                continue
+            if isinstance(st, ast.AugAssign):
+                continue
+            if isinstance(st, ast.If):
+                if depth > 8:
+                    return
+                from ..astutil import ends_in_raise
+                rest = stmts[i + 1:]
+                test = sub(st.test, env)
+                if not (ends_in_raise(st.body) and not st.orelse):
+                    walk(list(st.body) + rest, env, slots, conds + [(test, True)], depth + 1)
+                walk(list(st.orelse) + rest, env, slots, conds + [(test, False)], depth + 1)
+                return
+            if isinstance(st, ast.Return):
+                out.append((conds, slots, sub(st.value, env) if st.value is not None else None))
+                return
+            if isinstance(st, ast.Raise):
+                return
+        out.append((conds, slots, None))
+
+    walk(body_nodoc(fnode), {}, {}, [])
+    return out
